@@ -113,7 +113,137 @@ func parseVP8Hdr(d []byte) (w, h int, err error) {
 	if w == 0 || h == 0 {
 		return 0, 0, errors.New("walker: VP8 zero dimension")
 	}
+	if err := checkVP8Partitions(d, part0); err != nil {
+		return 0, 0, err
+	}
 	return w, h, nil
+}
+
+// vp8Bool is the boolean entropy decoder of RFC 6386 section 7, used only to read
+// the frame header fields that precede the token-partition count.
+type vp8Bool struct {
+	data  []byte
+	pos   int
+	value uint32
+	rng   uint32
+	bits  int
+}
+
+func newVP8Bool(data []byte) *vp8Bool {
+	b := &vp8Bool{data: data, rng: 255}
+	for i := 0; i < 2; i++ {
+		b.value <<= 8
+		if b.pos < len(data) {
+			b.value |= uint32(data[b.pos])
+		}
+		b.pos++
+	}
+	return b
+}
+
+func (b *vp8Bool) readBool(prob uint32) uint32 {
+	split := 1 + (((b.rng - 1) * prob) >> 8)
+	bigSplit := split << 8
+	var ret uint32
+	if b.value >= bigSplit {
+		ret = 1
+		b.rng -= split
+		b.value -= bigSplit
+	} else {
+		b.rng = split
+	}
+	for b.rng < 128 {
+		b.value <<= 1
+		b.rng <<= 1
+		b.bits++
+		if b.bits == 8 {
+			b.bits = 0
+			if b.pos < len(b.data) {
+				b.value |= uint32(b.data[b.pos])
+			}
+			b.pos++
+		}
+	}
+	return ret
+}
+
+func (b *vp8Bool) lit(n int) uint32 {
+	var v uint32
+	for i := 0; i < n; i++ {
+		v = v<<1 | b.readBool(128)
+	}
+	return v
+}
+
+func (b *vp8Bool) optSigned(n int) {
+	if b.lit(1) == 1 {
+		b.lit(n)
+		b.lit(1)
+	}
+}
+
+// checkVP8Partitions reads the key-frame header up to the token-partition count
+// (RFC 6386 section 9.2-9.5) and checks the partition layout (section 9.5): the
+// size table and every partition must fit, and the last partition must start before
+// the end of the data (a reference decoder refuses a frame whose last partition is
+// empty).
+func checkVP8Partitions(d []byte, part0 int) error {
+	if part0 < 1 {
+		return errors.New("walker: VP8 first partition is empty")
+	}
+	b := newVP8Bool(d[10 : 10+part0])
+	b.lit(1) // color space
+	b.lit(1) // clamping type
+	if b.lit(1) == 1 { // segmentation enabled
+		updMap := b.lit(1)
+		if b.lit(1) == 1 { // update segment feature data
+			b.lit(1)
+			for i := 0; i < 4; i++ {
+				b.optSigned(7)
+			}
+			for i := 0; i < 4; i++ {
+				b.optSigned(6)
+			}
+		}
+		if updMap == 1 {
+			for i := 0; i < 3; i++ {
+				if b.lit(1) == 1 {
+					b.lit(8)
+				}
+			}
+		}
+	}
+	b.lit(1) // filter type
+	b.lit(6) // level
+	b.lit(3) // sharpness
+	if b.lit(1) == 1 { // loop filter adjustments
+		if b.lit(1) == 1 {
+			for i := 0; i < 8; i++ {
+				b.optSigned(6)
+			}
+		}
+	}
+	nparts := 1 << b.lit(2)
+	if b.pos > part0+2 {
+		return errors.New("walker: VP8 first partition ends inside the frame header")
+	}
+	p := 10 + part0
+	tbl := 3 * (nparts - 1)
+	if p+tbl > len(d) {
+		return fmt.Errorf("walker: VP8 partition size table (%d partitions) does not fit", nparts)
+	}
+	start := p + tbl
+	for i := 0; i < nparts-1; i++ {
+		sz := int(d[p+3*i]) | int(d[p+3*i+1])<<8 | int(d[p+3*i+2])<<16
+		if start+sz > len(d) {
+			return fmt.Errorf("walker: VP8 token partition %d of %d (%d bytes) runs past the end of the frame", i, nparts, sz)
+		}
+		start += sz
+	}
+	if start >= len(d) {
+		return fmt.Errorf("walker: VP8 last token partition (%d of %d) is empty", nparts-1, nparts)
+	}
+	return nil
 }
 
 func parseVP8LHdr(d []byte) (w, h int, alpha bool, err error) {
